@@ -546,7 +546,7 @@ func (e *Engine) pick(n int) int {
 
 func (e *Engine) freshVar(kind string, s Sort) *Term {
 	name := fmt.Sprintf("n%d_%s", len(e.nondets), kind)
-	t := e.ts.Var(name, s)
+	t := e.newVar(name, s)
 	e.nondets = append(e.nondets, NondetRec{Kind: kind, Term: t})
 	return t
 }
